@@ -17,9 +17,9 @@ use std::hash::BuildHasherDefault;
 use std::process::Command;
 use std::sync::{Arc, Barrier};
 
-pub const KINDS: [&str; 14] = ["pmh3", "pmh3hashmap", "pmh3a", "pmh3ahashmap", "pmh3asha", "pmh2", "ord", "smh", "smh2", "ssk", "dens",
+pub const KINDS: [&str; 15] = ["pmh3", "pmh3hashmap", "pmh3a", "pmh3ahashmap", "pmh3asha", "pmh2", "ord", "smh", "smh2", "ssk", "dens",
     // other instantiations of the generic sketchers, with parameters whose values exceed the narrower type's range
-    "ssk32wide", "smh32", "dens32"];   // (SuperMinHash2<u32> needs a 32-bit hasher: documented precondition)
+    "ssk32wide", "smh32", "dens32", "denssparse"];   // (SuperMinHash2<u32> needs a 32-bit hasher: documented precondition)
 
 fn bh() -> BuildHasherDefault<FnvHasher> {
     BuildHasherDefault::<FnvHasher>::default()
@@ -102,6 +102,18 @@ pub fn sketch_text(kind: &str, m: usize, items: &[u64]) -> String {
             s.sketch_slice(items).unwrap();
             join(&s.get_hsketch().iter().map(|x| x.to_bits() as u64).collect::<Vec<_>>())
         }
+        "denssparse" => {
+            // few items in many bins: densification fills most positions (both algorithms, f64 and f32)
+            let few = &items[..items.len().min(6)];
+            let mm = 4 * m;
+            let mut out = Vec::new();
+            for kind in 0..4 {
+                let mut a = D::new(kind, mm);
+                a.sketch_slice(few);
+                out.push(join(&a.u64view()));
+            }
+            out.join(" / ")
+        }
         "dens32" => {
             let mut a = D::new(2, m);
             a.sketch_slice(items);
@@ -120,6 +132,15 @@ pub fn sketch_text(kind: &str, m: usize, items: &[u64]) -> String {
     }
 }
 
+/// run sketcher `k` on unrelated inputs of several sizes (dense and sparse): whatever process-wide or thread-local
+/// state this leaves behind must not influence later sketches
+pub fn prelude(k: &str, seed: u64) {
+    let warm = gen_stream(&mut Sm64(seed ^ 0x5555), 25);
+    let _ = sketch_text(k, 8, &warm);
+    let _ = sketch_text(k, 32, &warm[..3]);
+    let _ = sketch_text(k, 128, &warm[..5]);
+}
+
 /// child process: `pmh_harness child-c12 <kind> <m> <seed> <n>`
 pub fn child(args: &[String]) {
     let m: usize = args[1].parse().unwrap();
@@ -129,8 +150,7 @@ pub fn child(args: &[String]) {
     // prelude: other sketchers (other instantiations) run first in this process — process-wide state they
     // leave behind (statics, caches, thread-locals) must not influence the target
     for k in &args[4..] {
-        let warm = gen_stream(&mut Sm64(seed ^ 0x5555), 25);
-        let _ = sketch_text(k, 8, &warm);
+        prelude(k, seed);
     }
     println!("{}", sketch_text(&args[0], m, &items));
 }
@@ -161,12 +181,17 @@ pub fn corr(ctx: &mut Ctx) {
                     let k = kind.to_string();
                     std::thread::spawn(move || {
                         b.wait();
-                        (format!("thread{}", t), sketch_text(&k, m, &it))
+                        // every second thread has a history: all sketchers ran in it before (thread-local state)
+                        if t % 2 == 1 { for pk in KINDS.iter() { prelude(pk, seed); } }
+                        (format!("thread{}{}", t, if t % 2 == 1 { " with history" } else { "" }), sketch_text(&k, m, &it))
                     })
                 })
                 .collect();
-            for hnd in handles {
-                all.push(hnd.join().unwrap());
+            for (t, hnd) in handles.into_iter().enumerate() {
+                match hnd.join() {
+                    Ok(x) => all.push(x),
+                    Err(_) => all.push((format!("thread{}{} PANICKED", t, if t % 2 == 1 { " with history" } else { "" }), "PANIC".to_string())),
+                }
             }
             // separate processes (different address-space layout and RandomState keys)
             let exe = std::env::current_exe().unwrap();
